@@ -3,6 +3,7 @@ package value
 import (
 	"fmt"
 	"sync"
+	"sync/atomic"
 )
 
 var RWMutexClass *Class              // ::Std::Sync::RWMutex
@@ -11,6 +12,10 @@ var RWMutexUnlockedErrorClass *Class // ::Std::Sync::RWMutex::UnlockedError
 // Wraps a Go RWMutex.
 type RWMutex struct {
 	Native sync.RWMutex
+	// Unlocking an unlocked sync.RWMutex is a fatal error that cannot be recovered,
+	// so the lock state is tracked to detect it beforehand.
+	writeLocked atomic.Bool  // true while Native is held for writing
+	readers     atomic.Int64 // number of read locks currently held
 }
 
 func NewRWMutex() *RWMutex {
@@ -55,29 +60,33 @@ func (*RWMutex) InstanceVariables() *InstanceVariables {
 
 func (m *RWMutex) Lock() {
 	m.Native.Lock()
+	m.writeLocked.Store(true)
 }
 
 func (m *RWMutex) ReadLock() {
 	m.Native.RLock()
+	m.readers.Add(1)
 }
 
 func (m *RWMutex) Unlock() (err Value) {
-	defer func() {
-		if r := recover(); r != nil {
-			err = Ref(NewError(RWMutexUnlockedErrorClass, "a rwmutex that is unlocked for writing cannot be unlocked for writing"))
-		}
-	}()
+	if !m.writeLocked.CompareAndSwap(true, false) {
+		return Ref(NewError(RWMutexUnlockedErrorClass, "a rwmutex that is unlocked for writing cannot be unlocked for writing"))
+	}
 
 	m.Native.Unlock()
 	return Undefined
 }
 
 func (m *RWMutex) ReadUnlock() (err Value) {
-	defer func() {
-		if r := recover(); r != nil {
-			err = Ref(NewError(RWMutexUnlockedErrorClass, "a rwmutex that is unlocked for reading cannot be unlocked for reading"))
+	for {
+		n := m.readers.Load()
+		if n <= 0 {
+			return Ref(NewError(RWMutexUnlockedErrorClass, "a rwmutex that is unlocked for reading cannot be unlocked for reading"))
 		}
-	}()
+		if m.readers.CompareAndSwap(n, n-1) {
+			break
+		}
+	}
 
 	m.Native.RUnlock()
 	return Undefined
